@@ -1,11 +1,82 @@
-/- BDS 4,0 — crates/rs1090/src/decode/bds/bds40.rs   (STUB: not modelled yet) -/
+/-
+BDS 4,0 selected vertical intention — crates/rs1090/src/decode/bds/bds40.rs
+
+`SelectedVerticalIntention` (DekuRead struct, 56 bits, `#[serde(tag = "bds", rename = "40")]`):
+
+  1+12  selected_altitude_mcp   reader = read_selected   serde: "selected_mcp", skipped when None
+  1+12  selected_altitude_fms   reader = read_selected   serde: "selected_fms", skipped when None
+  1+12  barometric_setting      reader = read_qnh        serde: skipped when None
+  8     reserved                map: non-zero ⇒ Err(Assertion)                 serde(skip)
+  1,1,1,1  mcp_status, vnav_mode, alt_hold_mode, approach_mode                  serde(skip)
+  2     reserved1               map: non-zero ⇒ Err(Assertion)                 serde(skip)
+  1     source_status                                                         serde(skip)
+  2     target_altitude_source  enum TargetSource (ids 0..3 all exist)         "target_source",
+                                                                              skipped when Unknown
+Numeric conversions are pure functions of the raw codes (`selectedAlt`, `qnhNum`), separate from
+the bit reading.
+-/
 import Rs1090.Model.Decode.Common
 namespace Rs1090.Model.Bds40
 open Rs1090 Rs1090.Model
 
-/-- STUB -/
-def modelled : Bool := false
+def modelled : Bool := true
 
-def read : R SerFields := R.fail .other
+/-- `read_selected` after the two reads: status bit and 12-bit value ↦ `Err`, `None`, `Some(ft)`.
+    u16 arithmetic, overflow-checked: `value * 16`, `+ 8`, `/ 100 * 100`; then `> 45000 ⇒ Err`. -/
+def selectedAlt (status : Bool) (value : Nat) : Outcome (Option Nat) :=
+  if !status then
+    (if value != 0 then .err .assertion else .ok none)
+  else do
+    let v ← mulU 16 value 16
+    let v ← addU 16 v 8
+    let q ← divU v 100
+    let r ← mulU 16 q 100
+    if r > 45000 then .err .assertion else .ok (some r)
+
+/-- `read_qnh` after the two reads; the value is the numerator of tenths of hPa:
+    `value as f64 * 0.1 + 800.` = `(value + 8000) / 10` (f64 rounding of `* 0.1` is below 1e-13). -/
+def qnhNum (status : Bool) (value : Nat) : Outcome (Option Nat) :=
+  if !status then
+    (if value != 0 then .err .assertion else .ok none)
+  else .ok (some (value + 8000))
+
+def readSelected : R (Option Nat) := do
+  let status ← flag
+  let value ← bits 12
+  R.lift (selectedAlt status value)
+
+def readQnh : R (Option Nat) := do
+  let status ← flag
+  let value ← bits 12
+  R.lift (qnhNum status value)
+
+/-- serde name of `TargetSource`; `none` = `Unknown` (`skip_serializing_if = "TargetSource::is_unknown"`) -/
+def targetSource (id : Nat) : Option Json :=
+  match id with
+  | 0 => none
+  | 1 => some (.lit (key! "AircraftAltitude"))
+  | 2 => some (.lit (key! "FcpMcuSelectedAltitude"))
+  | _ => some (.lit (key! "FmsSelectedAltitude"))
+
+def read : R SerFields := do
+  let mcp ← readSelected
+  let fms ← readSelected
+  let qnh ← readQnh
+  let reserved ← bits 8
+  if reserved != 0 then R.fail .assertion else
+  let _mcpStatus ← flag
+  let _vnav ← flag
+  let _altHold ← flag
+  let _approach ← flag
+  let reserved1 ← bits 2
+  if reserved1 != 0 then R.fail .assertion else
+  let _sourceStatus ← flag
+  let src ← enumId 2
+  pure <| .ok [
+    fld (key! "bds") (.lit (key! "40")),
+    skipNone (key! "selected_mcp") (mcp.map jnat),
+    skipNone (key! "selected_fms") (fms.map jnat),
+    skipNone (key! "barometric_setting") (qnh.map fun n => jrat n 10),
+    skipNone (key! "target_source") (targetSource src) ]
 
 end Rs1090.Model.Bds40
